@@ -15,6 +15,16 @@ Proof.
   rewrite (gen_calc_srv_value_model H HL). reflexivity.
 Qed.
 
+(* the two accessors of the long-term key built from a seed: public_key() is the Ed25519 public key OF THAT
+   SEED (what the server announces at start-up is the key whose private half signs the delegation) and
+   srv_value() is the SRV value derived from it *)
+Theorem gen_ltk_accessors_model : forall H, HashLen H -> forall ed_pk seed,
+  obind (gen_ltk_new ed_pk H seed) (fun k => gen_ltk_public_key ed_pk (fst k)) = Ok (ed_pk seed)
+  /\ obind (gen_ltk_new ed_pk H seed) (fun k => gen_ltk_srv_value (snd k)) = Ok (ltk_srv_value H ed_pk seed).
+Proof.
+  intros H HL ed_pk seed. rewrite (gen_ltk_new_model H HL). split; reflexivity.
+Qed.
+
 (* Responder::new: the certificate is make_cert of the long-term seed over the fresh online key, the
    request list is empty, the tree is new; same value as the model or both fail *)
 Theorem gen_responder_new_model : forall ed_pk ed_sign v lt online_seed,
